@@ -691,8 +691,8 @@ def oracle(c):
         v = d['v']
         sq = sum((x * x for x in v), F(0))
         m = F(fr(linalg.vector_magnitude(qs(v))))
-        if m != F(math.sqrt(float(sq))):
-            return "vector_magnitude is not the correctly rounded square root of the sum of squares"
+        if m < 0 or abs(m * m - sq) > sq * F(1, 2 ** 49):
+            return "vector_magnitude is not the square root of the sum of squares (relative deviation of the square above 2^-49)"
         if k == 'normalize' and sq > 0:
             o = [F(fr(x)) for x in linalg.vector_normalize(qs(v))]
             if o != [x / m for x in v]:
